@@ -113,6 +113,13 @@ Qed.
 Lemma setup_local_ext E fx s pk sk X rank cur to : ext s (fst (setup_local E fx s pk sk X rank cur to)).
 Proof. unfold setup_local. apply create_ext. Qed.
 
+Lemma getf_setf_same s i F : (i < length (futs s))%nat -> getf (setf s i F) i = F.
+Proof. intros H. unfold getf, setf. cbn. apply nth_lset_same. exact H. Qed.
+Lemma getf_setf_other s i g F : i <> g -> getf (setf s i F) g = getf s g.
+Proof. intros H. unfold getf, setf. cbn. apply nth_lset_other. exact H. Qed.
+Lemma length_futs_setf s i F : length (futs (setf s i F)) = length (futs s).
+Proof. unfold setf. cbn. apply length_lset. Qed.
+
 (* ------------------------------------------- fulfilled at most once *)
 Lemma get_internal_done E s f b c : f_val (getf s f) = Some c -> get_internal E s f b = (s, Some c).
 Proof. intros H. unfold get_internal. rewrite H. reflexivity. Qed.
@@ -206,21 +213,18 @@ Proof.
     unfold get_internal in H. destruct (f_val (getf s f)) as [c0|] eqn:Hv.
     + inv H. split; [unfold get_spec; rewrite Hm; exact Hi|]. auto.
     + cbn [negb] in H. destruct (negb (sendrecv_ok _ _)); [inv H|]. inv H.
-      assert (Hsame : forall g, g <> f -> getf (setf (add_ev (add_copy s _) _) f (fut_val (getf s f) (Some (length (copies s))))) g = getf s g).
-      { intros g Hg. unfold getf, setf. cbn. apply nth_lset_other. auto. }
-      assert (Hself : getf (setf (add_ev (add_copy s {| cp_dtt := f_dst (getf s f); cp_rank := f_rank (getf s f);
-                 cp_data := convert (lay E (f_src (getf s f)) (f_cnt (getf s f))) (lay E (f_dst (getf s f)) 1)
-                              (cp_data (getc s (f_in (getf s f)))) (e_fresh E) |})
-                 (EConv (f_in (getf s f)) (f_src (getf s f)) (f_cnt (getf s f)) (length (copies s)) (f_dst (getf s f))))
-                 f (fut_val (getf s f) (Some (length (copies s))))) f = fut_val (getf s f) (Some (length (copies s)))).
-      { unfold getf, setf. cbn. apply nth_lset_same. exact Hf. }
+      match goal with |- context[get_spec E (setf ?S0 f ?V) f s0 s1] => set (sx := S0) in *; set (Vx := V) in * end.
+      assert (Hfx : (f < length (futs sx))%nat) by exact Hf.
+      assert (Hsame : forall g, g <> f -> getf (setf sx f Vx) g = getf s g).
+      { intros g Hg. rewrite getf_setf_other by auto. reflexivity. }
+      assert (Hself : getf (setf sx f Vx) f = Vx) by (apply getf_setf_same; exact Hfx).
       split; [|split; [|split]].
-      * unfold get_spec. rewrite Hself. cbn [f_m0 f_m1 fut_val]. rewrite Hm. exact Hi.
-      * intros n Hn'. rewrite Hself in Hn'. cbn [f_nested fut_val] in Hn'.
-        destruct (Hnd n Hn') as [H1 [H2 H3]]. unfold setf at 1. cbn [futs with_futs]. rewrite length_lset.
+      * unfold get_spec. rewrite Hself. subst Vx. cbn [f_m0 f_m1 fut_val]. rewrite Hm. exact Hi.
+      * intros n Hn'. rewrite Hself in Hn'. subst Vx. cbn [f_nested fut_val] in Hn'.
+        destruct (Hnd n Hn') as [H1 [H2 H3]]. rewrite length_futs_setf.
         split; [exact H1|]. split; [exact H2|]. rewrite Hsame by exact H2. exact H3.
       * exact Hn.
-      * unfold setf. cbn. rewrite length_lset. exact Hf.
+      * rewrite length_futs_setf. exact Hf.
   - (* another shape: look among the nested promises *)
     rewrite find_nested_done in H by (intros n Hn; apply (Hnd n Hn)).
     destruct (find (fun n => match_spec (f_m0 (getf s n)) (f_m1 (getf s n)) s0 s1) (f_nested (getf s f))) as [n|] eqn:Hfind.
